@@ -255,7 +255,8 @@ pub struct IMAGE_OPTIONAL_HEADER32 {
 
 #[derive(Copy, Clone, Debug)]
 #[cfg_attr(feature = "serde", derive(::serde::Serialize))]
-#[repr(C)]
+// winnt.h declares this struct under 4 byte packing, the headers are only dword aligned in the image
+#[repr(C, packed(4))]
 pub struct IMAGE_OPTIONAL_HEADER64 {
 	pub Magic: u16,
 	pub LinkerVersion: IMAGE_VERSION<u8>,
@@ -301,7 +302,8 @@ pub struct IMAGE_NT_HEADERS32 {
 
 #[derive(Copy, Clone, Debug)]
 #[cfg_attr(feature = "serde", derive(::serde::Serialize))]
-#[repr(C)]
+// winnt.h declares this struct under 4 byte packing, the headers are only dword aligned in the image
+#[repr(C, packed(4))]
 pub struct IMAGE_NT_HEADERS64 {
 	pub Signature: u32,
 	pub FileHeader: IMAGE_FILE_HEADER,
